@@ -14,7 +14,7 @@ func TestMain(m *testing.M) { hx.Main(m) }
 
 var rec = hx.NewRecorder("C13",
 	"documents: one value assignment over every scalar/array/counter kind is turned into a document by NewDocFromJSON (two key orders), "+
-		"NewDocFromMap (Go-typed values), create_X through GraphQL on two nodes and the collection API, with null fields either written or omitted per route; "+
+		"NewDocFromMap (Go-typed values), create_X through GraphQL on two nodes and the collection API, and documents built in two steps (NewDocFromJSON of some fields, SetWithJSON of the rest; created directly - which may be refused, never stored under the stale id - or after GenerateAndSetDocID), with null fields either written or omitted per route; "+
 		"non-trivial = at least 3 non-null fields, at least 3 routes and at least one field that is null on one route and omitted on another. "+
 		"schemas: 1-6 type definitions with 1-3 scalar fields and relations (1-1, 1-N, one-sided; self, cycles of length 1-4, tails into/out of cycles, links between cycles) "+
 		"added to fresh nodes in 3-5 variants (type order, field order, partition of the relation-connected components into successive AddSchema calls, repetition); "+
@@ -105,6 +105,12 @@ func TestC13Docs(t *testing.T) {
 		labels := []string{"doc", fmt.Sprintf("doc:routes=%d", o.routes)}
 		if o.gqlSkipped {
 			labels = append(labels, "doc:int-beyond-32bit(no-graphql-route)")
+		}
+		if o.setRefused > 0 {
+			labels = append(labels, "doc:two-step-document-refused-by-create(stale-id)")
+		}
+		if o.setStored > 0 {
+			labels = append(labels, "doc:two-step-document-stored")
 		}
 		if o.nullSwapped {
 			labels = append(labels, "doc:null-written-vs-omitted")
